@@ -160,11 +160,16 @@ def division_guard(ctx):
     import numpoly
 
     q0, q1 = numpoly.variable(2)
-    divisors = [q0, numpoly.polynomial([q0 + 1, 2]), q0 * q1 - 1]
+    # ... also where the divisor arrives as a list / tuple / nested list that contains polynomials
+    divisors = [q0, numpoly.polynomial([q0 + 1, 2]), q0 * q1 - 1, [2, q0 + 1], (q0, 3),
+                [[q0 * q1], [1]], [numpoly.polynomial(2), q1]]
     for name in ("floor_divide", "true_divide", "divide", "remainder", "mod", "divmod"):
         for ns_name, ns in (("numpoly", numpoly), ("numpy", numpy)):
             for divisor in divisors:
                 for dividend in (numpoly.polynomial([4, 6]), numpy.array([4.0, 6.0]), 7):
+                    if ns_name == "numpy" and not isinstance(divisor, numpoly.ndpoly) and \
+                            not isinstance(dividend, numpoly.ndpoly):
+                        continue  # no polynomial among the arguments: numpy never dispatches
                     case = {"op": name, "spelling": ns_name, "guard": repr(divisor)}
                     ctx.count("division_guard")
                     ctx.evaluated(("guard", name, ns_name, repr(divisor), type(dividend).__name__),
